@@ -5,7 +5,7 @@
 From Coq Require Import List String QArith.
 From Coq Require Import Floats.PrimFloat.
 From PAFC01 Require Import ModelTree.
-From PAFC12 Require Import Gen Model Proofs Proofs2 Proofs3 Proofs4 Proofs5 Proofs6 Proofs7.
+From PAFC12 Require Import Gen Model Proofs Proofs2 Proofs3 Proofs4 Proofs5 Proofs6 Proofs7 Proofs8 Proofs9.
 Import ListNotations.
 
 (* STRUCTURE, every mode.  The new model has exactly the places (paths) of the old one, and the place that held
@@ -56,7 +56,9 @@ Theorem C12_instance_kept : forall (V : Type) (L : leaves V) cfg specs (bin : bi
   inst V bin args n' = inst V bin args n.
 Proof. exact l_instance_kept. Qed.
 
-(* OWN VALUE.  The i-th parameter (id order) gets the prior derived from the i-th inferred value and from nothing
+(* OWN VALUE (the pairing itself is zip_derive's definition; the content is that the priors REPORTED for the new model,
+   new_specs over its own id order, are exactly those entries in that order, together with C12_structure_kept).
+   OWN VALUE.  The i-th parameter (id order) gets the prior derived from the i-th inferred value and from nothing
    else; it is a Gaussian centred on that value whose width is a, r * value or the modifier's, and it keeps the id *)
 Theorem C12_own_value : forall (V : Type) (L : leaves V) cfg specs (a r : option V) (nl : bool) (means : list V)
     (n n' : node V) sp,
@@ -133,6 +135,21 @@ Theorem C12_config_own : forall (V : Type) (p : path) (n : node V) cls ctor attr
   cfg_name (p ++ k0 :: rest) = Ok (last (k0 :: rest) EmptyString).
 Proof. exact config_own. Qed.
 
+(* ... and NOT in general for a shared prior: the class comes from prior_class_dict (the child model wins), the name from
+   the last place in the walk.  Parameter 0 of ex_shared sits at KN.s and at KN.inner.a (class K2) and is looked up under
+   (K2, "s"), neither of its places: it gets K2.s's width 3 and its old limits (refuted; known finding) *)
+Theorem C12_config_own_refuted :
+  wf Q ex_shared /\
+  walk Q ex_shared = [(["inner"; "a"]%string, 0%nat); (["inner"; "s"]%string, 1%nat); (["s"]%string, 0%nat)] /\
+  PAFC01.Proofs.node_at Q ["inner"%string] ex_shared
+    = Some (NModel "K2" ["a"; "s"]%string [("a"%string, NPrior 0%nat); ("s"%string, NPrior 1%nat)]) /\
+  class_of Q 0 ex_shared = Some "K2"%string /\ last_path Q 0 ex_shared = Some ["s"%string] /\ cfg_name ["s"%string] = Ok "s"%string /\
+  exists n' s0 s1,
+    qpass (-1000) 1000 ex_shared_cfg ex_shared_specs (MMeans None None false [1 # 2; 1]) ex_shared
+      = Ok (n', [(0%nat, s0); (1%nat, s1)]) /\
+    s_sigma Q s0 = 3 /\ (s_lo Q s0, s_hi Q s0) = (-1, 1).
+Proof. exact config_own_refuted. Qed.
+
 (* Full statement "passing succeeds for every finite inferred vector" (any sign), exact arithmetic *)
 Theorem C12_total_absolute : forall (ninf pinf : Q) cfg specs (a : Q) (nl : bool) (means : list Q) (n : node Q),
   wf Q n -> is_pm Q n = true -> specs_cover Q specs n -> qlimits_good ninf pinf cfg specs ->
@@ -157,6 +174,14 @@ Proof. exact total_default_Q. Qed.
 Theorem C12_relative_width_nonneg : forall r m : Q, 0 <= r ->
   sigma_negative_Q (pm_rel_width_Q r m) = false /\ sigma_negative_Q (wm_relative_Q r m) = false.
 Proof. exact relative_width_nonneg. Qed.
+
+(* binary64, on a grid of 17 non-negative widths x 34 values of either sign (0, subnormal, 2^-1022, ..., 2^60, 2^300, max,
+   infinity): the computed relative width is never negative.  (A universally quantified binary64 statement needs the
+   FloatAxioms specification axioms, which are outside the trusted base; beyond the grid this rests on the correspondence.) *)
+Theorem C12_relative_width_float_grid :
+  forallb (fun r => forallb (fun m => negb (sigma_negative_F (pm_rel_width_F r m)) && negb (sigma_negative_F (wm_relative_F r m)))
+                            fgrid) fgrid_nonneg = true.
+Proof. exact relative_width_float_grid. Qed.
 
 (* bounded: succeeds for every vector of any sign over exact numbers (full); the uniform prior is centred on the
    value with half-width b.  In binary64 the statement fails for |value| >= 2^53 b (refuted). *)
@@ -184,6 +209,40 @@ Theorem C12_limits_structure : forall (V : Type) (L : leaves V) cfg specs (fresh
   forall p i d, (i < prior_count V n)%nat -> In (p, nth i (ordered_ids V n) d) (walk V n) -> In (p, (fresh + i)%nat) (walk V n').
 Proof. exact l_limits_structure. Qed.
 
+(* ... the i-th parameter of the new model carries the fresh prior derived from the i-th old prior and the i-th limits *)
+Theorem C12_own_limits : forall (V : Type) (L : leaves V) cfg specs (fresh : nat) (ls : list (V * V)) (n n' : node V) sp,
+  wf V n -> lpass V L cfg specs (MLimits fresh ls) n = Ok (n', sp) ->
+  List.length sp = prior_count V n /\
+  forall i d dl, (i < prior_count V n)%nat ->
+    exists s, nth_error sp i = Some ((fresh + i)%nat, s) /\
+              lderive_limits V L specs (nth i (ordered_ids V n) d) (nth i ls dl) = Ok s.
+Proof. exact l_own_limits. Qed.
+
+(* what one tightening produces, by family: uniform = intersection with the old range; gaussian = centred between the
+   limits with sigma = hi - lo >= 0 and infinite limits; log-uniform = (max(1e-6, lo), hi); a log-gaussian prior cannot be
+   tightened (TypeError: known finding) *)
+Theorem C12_tightened_prior : forall (V : Type) (L : leaves V) specs (q : nat) (l : V * V) (s : spec V),
+  lderive_limits V L specs q l = Ok s ->
+  exists old, lookup_nat q specs = Some old /\ s_fam V s = s_fam V old /\ s_wm V s = None /\
+    l_bad_limits V L (s_lo V s) (s_hi V s) = false /\
+    match s_fam V old with
+    | FUniform => s_lo V s = l_pl_lo V L (fst l) (s_lo V old) /\ s_hi V s = l_pl_hi V L (snd l) (s_hi V old)
+    | FGaussian => s_mean V s = l_gl_mean V L (fst l) (snd l) /\ s_sigma V s = l_gl_sigma V L (fst l) (snd l) /\
+                   l_neg_sigma V L (s_sigma V s) = false /\ s_lo V s = l_ninf V L /\ s_hi V s = l_pinf V L
+    | FLogUniform => s_lo V s = l_lu_lo V L (fst l) /\ s_hi V s = l_lu_hi V L (snd l)
+    | FLogGaussian => False
+    end.
+Proof. exact l_derive_limits_shape. Qed.
+
+(* with_limits succeeds when every single tightening does *)
+Theorem C12_total_limits : forall (V : Type) (L : leaves V) cfg specs (fresh : nat) (ls : list (V * V)) (n : node V),
+  wf V n -> (prior_count V n <= List.length ls)%nat ->
+  (forall i d dl, (i < prior_count V n)%nat ->
+     exists s, lderive_limits V L specs (nth i (ordered_ids V n) d) (nth i ls dl) = Ok s) ->
+  exists n' sp, lpass V L cfg specs (MLimits fresh ls) n = Ok (n', sp).
+Proof. exact l_total_limits. Qed.
+
+(* leaf facts used by the above (exact rationals; not property theorems by themselves) *)
 Theorem C12_tightened_limits : forall lo hi slo shi : Q,
   slo <= pl_lower_Q lo slo /\ lo <= pl_lower_Q lo slo /\ pl_upper_Q hi shi <= shi /\ pl_upper_Q hi shi <= hi.
 Proof. exact tightened_limits. Qed.
@@ -197,6 +256,17 @@ Theorem C12_replace_structure : forall (V : Type) (L : leaves V) cfg specs (m : 
   wf V n -> lpass V L cfg specs (MReplace m) n = Ok (n', sp) ->
   walk V n' = map (fun pq => (fst pq, repl V m (snd pq))) (walk V n).
 Proof. exact l_replace_structure. Qed.
+
+(* ... and carries, at each parameter, the prior the map gives for it; an unreplaced parameter keeps its old prior *)
+Theorem C12_own_replacement : forall (V : Type) (L : leaves V) cfg specs (m : arguments V) (n n' : node V) sp,
+  wf V n -> lpass V L cfg specs (MReplace m) n = Ok (n', sp) ->
+  (forall q' s, In (q', s) sp <->
+     In q' (ordered_ids V n') /\ lookup_nat q' (map snd (replace_args V specs n m)) = Some s) /\
+  (forall q q' s, In q (prior_ids V n) -> lookup_nat q m = Some (q', s) ->
+     lookup_nat q' (map snd m) = Some s -> In (q', s) sp) /\
+  (forall q s, In q (prior_ids V n) -> lookup_nat q m = None -> lookup_nat q (map snd m) = None ->
+     lookup_nat q specs = Some s -> In (q, s) sp).
+Proof. exact l_own_replacement. Qed.
 
 Theorem C12_replace_total : forall (V : Type) (L : leaves V) cfg specs (m : arguments V) (n : node V),
   wf V n -> specs_cover V specs n -> exists n' sp, lpass V L cfg specs (MReplace m) n = Ok (n', sp).
@@ -224,3 +294,7 @@ Print Assumptions C12_total_bounded_float_refuted.
 Print Assumptions C12_limits_structure.
 Print Assumptions C12_fixed_instance.
 Print Assumptions C12_config_own.
+Print Assumptions C12_config_own_refuted.
+Print Assumptions C12_own_limits.
+Print Assumptions C12_own_replacement.
+Print Assumptions C12_total_limits.
